@@ -107,7 +107,9 @@ def _parse_xml_string(xml_string, parser, charset=None):
     if charset:
         try:
             string = string.decode(charset)
-        except UnicodeDecodeError as e:
+        except UnicodeError as e:
+            # UnicodeDecodeError, and the plain UnicodeError of codecs like
+            # punycode or undefined
             raise Fault('Client.XMLSyntaxError', str(e))
 
     try:
